@@ -4,7 +4,7 @@ From Coq Require Import List NArith Bool Lia.
 From Breadlog Require Import Model.Peg Model.Text Model.Regex Model.Glue Model.Tables Model.Utf8 Model.Driver Model.History.
 From Breadlog Require Import Gen.Consts.
 From Breadlog Require Import Proofs.RewriteFacts Proofs.WorldFacts Proofs.DriverFacts Proofs.AllocFacts Proofs.RunFacts Proofs.HistoryFacts Proofs.CheckFacts.
-From Breadlog Require Import Properties.Common.
+From Breadlog Require Import Properties.Common Properties.C17.
 Import ListNotations.
 Open Scope N_scope.
 
@@ -38,6 +38,39 @@ Check C02_partial_history_invariant : forall evs h,
   | LAbsent => h_ghost h' = []
   | LCorrupt => False
   end.
+
+(* the "ends by itself" part of hist_ok (no panic, no hang) holds for EVERY run by C17, so the only
+   real hypotheses are: the lock is in use, and its write succeeds *)
+Fixpoint hist_uses_lock (evs : list hevent) : Prop :=
+  match evs with
+  | [] => True
+  | HEdit rc o :: r => rc_use_cache rc = true /\ o_lock_fault o = LkOk /\ hist_uses_lock r
+  | _ :: r => hist_uses_lock r
+  end.
+
+Lemma hist_ok_from_uses_lock : forall evs h, hist_uses_lock evs -> hist_ok0 h evs.
+Proof.
+  induction evs as [|ev evs IH]; intros h H; [exact I|].
+  destruct ev as [f|rc o|rc o]; cbn in H |- *.
+  - split; [exact I|apply IH; exact H].
+  - destruct H as (H1 & H2 & H3). split; [|apply IH; exact H3].
+    unfold edit_of. destruct (C17_edit_never_panics rc (Some (h_files h)) (h_lock h) o) as [Hp Hh].
+    repeat split; assumption.
+  - split; [exact I|apply IH; exact H].
+Qed.
+
+Theorem C02_history_invariant : forall evs h,
+  hinv h -> hist_uses_lock evs ->
+  let h' := hexec0 h evs in
+  NoDup (h_ghost h') /\
+  match h_lock h' with
+  | LValid L => 1 <= L <= u32max /\ forall g, In g (h_ghost h') -> g < L
+  | LAbsent => h_ghost h' = []
+  | LCorrupt => False
+  end.
+Proof.
+  intros evs h Hi Hu. apply C02_partial_history_invariant; [exact Hi|apply hist_ok_from_uses_lock; exact Hu].
+Qed.
 
 (* one edit run, however it ends by itself (success, I/O error on any file, stop request at any
    poll): the lock it leaves is above every ID it wrote *)
@@ -81,5 +114,6 @@ Proof.
 Qed.
 
 Print Assumptions C02_partial_history_invariant.
+Print Assumptions C02_history_invariant.
 Print Assumptions C02_lock_covers_ids.
 Print Assumptions C02_lock_window_refuted.
